@@ -281,6 +281,14 @@ def generate(rng, index, tier):
                                'how': rng.choice(('close', 'abort'))}
     if rng.random() < 0.1:
         plan['raising_listener'] = rng.choice(('message', 'status'))
+    if rng.random() < 0.15:
+        # connection requests for one user overlap while the server's answer with his address is outstanding; some of
+        # the callers give up before it arrives
+        n = rng.randint(2, 3)
+        answer = rng.choice([0.5, 1.0, 3.0])
+        plan['lookups'] = {'answer_at': answer, 'calls': [
+            {'at': round(rng.uniform(0.0, 0.3), 3), 'typ': rng.choice(('P', 'P', 'F')),
+             'cancel_at': rng.choice([None, None, round(rng.uniform(0.3, answer + 0.5), 3)])} for _ in range(n)]}
     return plan
 
 
@@ -289,6 +297,15 @@ def corpus(tier):
     out = []
     base = {'seed': 1, 'net': {'base_ms': 5, 'jitter_ms': 0, 'segmentation': 'whole', 'coalesce': True},
             'precise': True, 'cancels': []}
+    # 0. connection requests for one user overlap while his address is outstanding; one caller gives up before the answer
+    for typs in (('P', 'P'), ('F', 'P'), ('P', 'P', 'F')):
+        for cancel in (None, 0.4, 0.9):
+            for who in (0, 1):
+                calls_ = [{'at': 0.05 * i, 'typ': t, 'cancel_at': cancel if i == who else None} for i, t in enumerate(typs)]
+                out.append(dict(base, reqs=[{'id': 0, 'form': 'execute', 'src': 'server', 'kind': 'status', 'arg': 'u1',
+                                             'timeout': 3.0, 'at': 0.0}],
+                                msgs=[{'arrive': 0.6, 'src': 'server', 'kind': 'status', 'arg': 'u1', 'val': 1}],
+                                lookups={'answer_at': 1.0, 'calls': calls_}))
     # 1. plain answer for each kind / form
     i = 0
     for form in ('execute', 'wait', 'future'):
@@ -630,6 +647,32 @@ def _run(world: World, plan):
 
     fresh = {}
     lost = {}
+    lookup_calls = []
+
+    async def lookups():
+        lk = plan.get('lookups')
+        if not lk:
+            return
+        server.silent.add(M.GetPeerAddress.Request)
+
+        async def one(i, spec):
+            await _sleep_until(t0[0] + spec['at'])
+            call = world.call(alice, f'lookup{i}', network.create_peer_connection, 'lu', spec.get('typ', 'P'))
+            call.harness_cancelled = False
+            lookup_calls.append((spec, call))
+            if spec.get('cancel_at') is not None:
+                await _sleep_until(t0[0] + spec['cancel_at'])
+                if not call.done:
+                    world.net.fired['cancel_caller'] += 1
+                    call.harness_cancelled = True
+                    call.task.cancel()
+
+        async def answer():
+            await _sleep_until(t0[0] + lk['answer_at'])
+            world.net.fired['address_answer_for_overlapping_requests'] += 1
+            server.send_to('alice', M.GetPeerAddress.Response('lu', '10.9.9.9', 4000, obfuscated_port_amount=0,
+                                                              obfuscated_port=0))
+        await asyncio.gather(answer(), *[one(i, spec) for i, spec in enumerate(lk['calls'])])
 
     async def main():
         await world.start_client(alice)
@@ -642,6 +685,7 @@ def _run(world: World, plan):
         tasks.append(asyncio.ensure_future(timed_cancels()))
         tasks.append(asyncio.ensure_future(send_stall()))
         tasks.append(asyncio.ensure_future(server_loss()))
+        tasks.append(asyncio.ensure_future(lookups()))
         await asyncio.gather(*tasks)
         horizon = t0[0] + 14.0
         while loop.time() < horizon and any(not c.done for c in calls.values()):
@@ -651,6 +695,12 @@ def _run(world: World, plan):
             if not call.done:
                 call.cancel_time = loop.time()
                 call.forced_cancel = True
+                call.task.cancel()
+        if lookup_calls:
+            await _sleep_until(max(loop.time(), t0[0] + plan['lookups']['answer_at'] + 3.0))
+        for spec, call in lookup_calls:
+            if not call.done:
+                call.harness_cancelled = True
                 call.task.cancel()
         await asyncio.sleep(1.0)
         # residue: a fresh request/answer pair still works
@@ -666,6 +716,21 @@ def _run(world: World, plan):
     world.run(main())
 
     # ------------------------------------------------------------------ oracle
+    for spec, call in lookup_calls:
+        out = call.outcome()
+        if out == 'cancelled' and not call.harness_cancelled:
+            # somebody else's giving up ended this caller's request
+            world.violate('C12.missed', form='connect', kind='address', what='ended with CancelledError although nobody cancelled it')
+        elif out.startswith('raised:') and 'PeerConnectionError' not in out:
+            world.violate('C12.timeout_type', form='connect', kind='address', got=out[7:])
+    if plan.get('lookups') and not lost and not plan.get('server_loss'):
+        live = [1 for spec, call in lookup_calls
+                if spec.get('cancel_at') is None or spec['cancel_at'] > plan['lookups']['answer_at'] + 1.0]
+        tried = [a for a in world.net.connect_attempts if a['src'] == 'alice' and a.get('ip') == '10.9.9.9']
+        if live and not tried:
+            world.violate('C12.missed', form='connect', kind='address', what='the answer completed no pending request')
+        elif live:
+            world.probe('address_answer_completed_overlapping_requests')
     base = t0[0]
     deliveries = []
     for (t, it, idx, msg) in delivered:
